@@ -243,6 +243,23 @@ def run_ops(case) -> CaseResult:
         for r, v in other0.items():
             if r in P.s_bwd and not abs(P.s_bwd[r][0] - v) <= 1e-9 * abs(v):
                 res.fail(f"C05.weight-scale-changed:{op}:{r}", f"{r} gradient scale {P.s_bwd[r][0]!r} under {name!r} vs {v!r} under None")
+        # the forward scale is the constrained one whether or not the operands take part in autograd (inference, data inputs)
+        try:
+            bq = pb.build(cc, case["seedA"])
+            y_plain = bq.u(*[t.clone() for t in bq.ts])
+            y_grad = bq.u(*[t.clone().requires_grad_() for t in bq.ts])
+            with torch.no_grad():
+                y_ng = bq.u(*[t.clone() for t in bq.ts])
+            ref_ = y_grad.detach()
+            sc_ = max(1e-300, float(ref_.abs().max()))
+            for how, yv in (("operands without requires_grad", y_plain), ("torch.no_grad()", y_ng)):
+                if not bool(((yv.detach() - ref_).abs() <= 1e-12 * sc_).all()):
+                    res.fail(f"C05.forward-scale-depends-on-autograd:{op}:{name or 'empty'}",
+                             f"with constraint {name!r} the output for {how} differs from the output for operands that require a gradient "
+                             f"(ratio {float(yv.detach().flatten()[0] / ref_.flatten()[0]) if float(ref_.flatten()[0]) != 0 else float('nan'):.6g})")
+                    break
+        except Exception as e:  # noqa: BLE001
+            res.fail(exc_bucket(f"C05.raises:no-autograd:{op}", e), f"{type(e).__name__}: {e}")
         if name:
             ok = gradcheck_inputs(cc, set(roles))
             if ok is not True:
